@@ -6,9 +6,62 @@ import decimal
 from . import boot
 
 
+class _DF:
+    """The dataflows module as seen by the harness. Normally transparent. In 'record' mode every processor
+    constructor call (except Flow / load, whose iterators are one-shot) is recorded with its argument OBJECTS; in
+    'replay' mode the k-th constructor call receives the argument objects recorded for the k-th call of the record
+    pass - i.e. a second pipeline is built from the very same specification objects a first pipeline was built from
+    (and has possibly run on). This is how 'a step must not depend on / corrupt its caller's arguments' is observed
+    with every existing oracle, without a per-processor harness."""
+    mode = None
+    calls = []
+    pos = 0
+    FRESH = ('Flow', 'load', 'checkpoint', 'ResourceWrapper', 'PackageWrapper', 'DataStream', 'DataStreamProcessor')
+
+    def __getattr__(self, name):
+        import dataflows
+        real = getattr(dataflows, name)
+        if _DF.mode is None or name in _DF.FRESH or not callable(real) or name[:1].isupper() or name.startswith('_'):
+            return real
+
+        def ctor(*a, **kw):
+            if _DF.mode == 'record':
+                _DF.calls.append((name, a, kw))
+                return real(*a, **kw)
+            k = _DF.pos
+            _DF.pos += 1
+            if k >= len(_DF.calls) or _DF.calls[k][0] != name:
+                raise AssertionError('arg-reuse replay out of step at call %d (%s)' % (k, name))
+            return real(*_DF.calls[k][1], **_DF.calls[k][2])
+        for attr in dir(real):      # class-level constants such as load.INFER_STRINGS
+            if attr.isupper():
+                setattr(ctor, attr, getattr(real, attr))
+        return ctor
+
+
+_df = _DF()
+
+
 def df():
-    import dataflows
-    return dataflows
+    return _df
+
+
+class arg_reuse:
+    """with arg_reuse('record'): build + run pipeline 1;  with arg_reuse('replay'): build pipeline 2 (same arg objects)."""
+
+    def __init__(self, mode):
+        self.mode = mode
+
+    def __enter__(self):
+        _DF.mode = self.mode
+        if self.mode == 'record':
+            _DF.calls = []
+        _DF.pos = 0
+        return self
+
+    def __exit__(self, *a):
+        _DF.mode = None
+        return False
 
 
 def source(name, fields, rows):
